@@ -64,7 +64,15 @@ def gen_cases(tier, rng):
         for b in s["bath"]:
             b["reorg"] = 0.0
             b["ftype"] = "OverdampedBrownian-HighTemperature"
-        cases.append({"cls": "closed-limit", "sys": s, "depth": int(rng.integers(1, 4)), "seed": int(rng.integers(1 << 30)), "cost": 4})
+        depth = int(rng.integers(1, 4))
+        if i % 3 == 2:
+            # fast baths, deep hierarchy, coarse step: the decay rates of the deepest auxiliary operators exceed 1/dt
+            for b in s["bath"]:
+                b["cortime"] = r3(rng.uniform(8.0, 14.0))
+            s["dt"] = 2.0
+            s["Nt"] = int(rng.integers(30, 60))
+            depth = 5 + int(rng.integers(0, 2)) if N == 2 else 4
+        cases.append({"cls": "closed-limit", "sys": s, "depth": depth, "seed": int(rng.integers(1 << 30)), "cost": 4})
     nl = 10 if tier == "quick" else 40
     D = 6 if tier == "quick" else 8
     kB = 0.6950348 * 1.8836515e-4      # cm-1/K * (rad/fs per cm-1), generator side only
@@ -226,6 +234,8 @@ def run_case(case, ctx):
             rin = qr.ReducedDensityMatrix(data=rho0.copy())
             ev = prop.propagate(rin)
             data = numpy.array(ev.data)
+            # the same propagator object used for further runs (as a program looping over initial states does)
+            data_again = [numpy.array(prop.propagate(qr.ReducedDensityMatrix(data=rho0.copy())).data) for _ in range(2)]
         Nt = t.length
         ctx.require("shape", data.shape == (Nt, dim, dim), {"got": list(data.shape)})
         ctx.require("finite", bool(numpy.all(numpy.isfinite(data))), {})
@@ -235,6 +245,10 @@ def run_case(case, ctx):
                   256 * EPS * Nt, {"class": cls, "depth": case["depth"], "N": N})
         ctx.check("initial-state-stored", float(numpy.max(numpy.abs(data[0] - rho0))), 0.0 + 4 * EPS, {})
         moved = float(numpy.max(numpy.abs(data - rho0[None])))
+        for k_, da_ in enumerate(data_again):
+            ctx.check("closed-system-limit" if cls == "closed-limit" else "hermitian", float(numpy.max(numpy.abs(da_ - data))), 1e-13,
+                      {"class": cls, "depth": case["depth"], "N": N, "what": "run %d of the same propagator object vs its first run" % (k_ + 2),
+                       "max_Gamma_dt": float(numpy.max(numpy.asarray(hy.Gamma)) * t.step)})
         if cls == "closed-limit":
             x = 2 * float(numpy.linalg.norm(Hrwa, 2)) * t.step
             loc = x ** 5 / 120.0 * math.exp(x)
